@@ -181,10 +181,14 @@ def main():
           tail = w.tail()
           w.kill()
           rc = w.proc.returncode if rc is None else rc
+          vk = kind
+          if hasattr(drv, "crash_vkey"):
+            vk = f"{kind}:{drv.crash_vkey(s)}"
           results[i] = {
             "ok": False,
             "crash": rc,
-            "violations": [{"vkey": f"{kind}", "what": f"worker {kind} (returncode {rc}) while executing scenario", "log_tail": tail[-800:]}],
+            "outcome": kind,
+            "violations": [{"vkey": vk, "what": f"worker {kind} (returncode {rc}) while executing scenario", "log_tail": tail[-800:]}],
           }
           w = Worker(prop, widx, logdir)
           m2 = w.recv(600)
